@@ -17,6 +17,10 @@ use std::sync::Mutex;
 #[derive(Deserialize)]
 struct Job {
     result: String,
+    /// keep one `Configuration` value per distinct setting and reuse it for later calls (a
+    /// long-lived process that builds again and again), instead of a fresh one per call
+    #[serde(default)]
+    reuse_config: bool,
     #[serde(default)]
     canary: bool,
     /// number of 64-byte heap blocks leaked before doing anything (address shift)
@@ -52,6 +56,9 @@ struct Call {
     features: Option<Vec<String>>,
     #[serde(default)]
     macro_limit: Option<u16>,
+    /// entry == "write_file": the node itself overwrites `path` with these bytes (hex) between two calls
+    #[serde(default)]
+    write_hex: Option<String>,
 }
 
 fn yes() -> bool {
@@ -64,7 +71,15 @@ fn json_str(s: &str) -> String {
     serde_json::to_string(s).unwrap()
 }
 
-fn run_call(c: &Call) -> Result<(), String> {
+fn unhex(s: &str) -> Vec<u8> {
+    (0..s.len() / 2).filter_map(|i| u8::from_str_radix(&s[2 * i..2 * i + 2], 16).ok()).collect()
+}
+
+fn settings_key(c: &Call) -> String {
+    format!("{:?}|{:?}|{}|{}|{}|{}|{}|{}|{}|{:?}|{:?}", c.in_dir, c.out_dir, c.cargo_conventions, c.in_source_tree, c.force, c.report, c.comments, c.whitespace, c.rerun, c.features, c.macro_limit)
+}
+
+fn make_config(c: &Call) -> lalrpop::Configuration {
     let mut cfg = lalrpop::Configuration::new();
     cfg.never_use_colors();
     if c.cargo_conventions {
@@ -90,6 +105,24 @@ fn run_call(c: &Call) -> Result<(), String> {
     if let Some(l) = c.macro_limit {
         cfg.set_macro_recursion_limit(l);
     }
+    cfg
+}
+
+fn run_call(c: &Call, cache: &mut Option<std::collections::HashMap<String, lalrpop::Configuration>>) -> Result<(), String> {
+    if c.entry == "write_file" {
+        let p = c.path.clone().unwrap_or_default();
+        let bytes = unhex(c.write_hex.as_deref().unwrap_or(""));
+        let _ = std::fs::remove_file(&p);
+        return std::fs::write(&p, bytes).map_err(|e| format!("buildnode: write_file {p}: {e}"));
+    }
+    let fresh;
+    let cfg: &lalrpop::Configuration = match cache {
+        Some(m) => m.entry(settings_key(c)).or_insert_with(|| make_config(c)),
+        None => {
+            fresh = make_config(c);
+            &fresh
+        }
+    };
     let p = c.path.clone().unwrap_or_default();
     let r = match c.entry.as_str() {
         "process_dir" => cfg.process_dir(&p),
@@ -132,8 +165,9 @@ fn main() {
         let loc = info.location().map(|l| format!("{}:{}", l.file(), l.line())).unwrap_or_default();
         *LAST_PANIC.lock().unwrap() = format!("{msg} @ {loc}");
     }));
+    let mut cache = if job.reuse_config { Some(std::collections::HashMap::new()) } else { None };
     for (i, c) in job.calls.iter().enumerate() {
-        let r = panic::catch_unwind(AssertUnwindSafe(|| run_call(c)));
+        let r = panic::catch_unwind(AssertUnwindSafe(|| run_call(c, &mut cache)));
         let line = match r {
             Ok(Ok(())) => format!("{{\"i\":{i},\"status\":\"ok\",\"msg\":\"\"}}"),
             Ok(Err(e)) => format!("{{\"i\":{i},\"status\":\"err\",\"msg\":{}}}", json_str(&e)),
